@@ -752,7 +752,11 @@ def _skip_event(*events, **kwargs):
     if changed is None:
         return False
     for e in events:
-        for p in changed:
+        # changed: sub-paths to compare, optionally per parameter name
+        subpaths = changed.get(e.name) if isinstance(changed, dict) else changed
+        if subpaths is None:
+            return False
+        for p in subpaths:
             if what == 'value':
                 old = Undefined if e.old is None else _getattrr(e.old, p, None)
                 new = Undefined if e.new is None else _getattrr(e.new, p, None)
@@ -2387,21 +2391,27 @@ class Parameters:
         if dynamic_dep is None:
             subparams, callback, what = None, None, param_dep.what
         else:
-            subparams, callback, what = self_._resolve_dynamic_deps(
+            _, callback, what = self_._resolve_dynamic_deps(
                 obj, dynamic_dep, param_dep, attribute)
-            # Several dependencies can pass through the same sub-object:
-            # a replaced sub-object must be compared on all of their sub-paths.
-            for ddep, pdep in group[1:]:
+            # Several dependencies can be watched through the same
+            # parameters of dep_obj. Record, per watched parameter, the
+            # sub-paths to compare when the sub-object it holds is replaced;
+            # None marks a dependency on the parameter's own value, whose
+            # events can never be skipped.
+            subparams = {}
+            for ddep, pdep in group:
                 if ddep is None:
-                    continue
-                sp, cb, _ = self_._resolve_dynamic_deps(obj, ddep, pdep, attribute)
-                if sp is None or subparams is None:
-                    # a dependency on a parameter of dep_obj itself is in the
-                    # group: its events can never be skipped
-                    subparams = None
+                    sp, cb = None, None
                 else:
-                    subparams = subparams + [p for p in sp if p not in subparams]
+                    sp, cb, _ = self_._resolve_dynamic_deps(obj, ddep, pdep, attribute)
                 callback = callback or cb
+                if sp is None or subparams.get(pdep.name, ()) is None:
+                    subparams[pdep.name] = None
+                else:
+                    known = subparams.setdefault(pdep.name, [])
+                    known.extend(p for p in sp if p not in known)
+            if all(sp is None for sp in subparams.values()):
+                subparams = None
 
         mcaller = _m_caller(obj, name, what, subparams, callback)
         return dep_obj.param._watch(
